@@ -221,14 +221,17 @@ impl<K> Policy<K> {
     ) where
         K: std::hash::Hash + Eq + Clone,
     {
-        while self.lru.pinned_len() > 0 {
+        // Visit every entry of the pinned region once: stopping at the first
+        // still-pinned entry would let released entries behind it outlive
+        // any number of maintenance rounds. Entries that are still pinned
+        // rotate to the head, so the region keeps its order.
+        for _ in 0..self.lru.pinned_len() {
             let key = self.lru.peek_least_recent(lru::Region::Pinned).unwrap();
 
             if remove(key) {
                 self.lru.pop_least_recent(lru::Region::Pinned);
             } else {
                 self.lru.shuffle_tail_to_head(lru::Region::Pinned);
-                break;
             }
         }
     }
